@@ -78,6 +78,7 @@ class World:
         self.drift = None
         self.skipped = 0
         pools = cfg["pools"] if "pools" in cfg else [cfg]
+        self.multi = "pools" in cfg
         self.pools = []
         for p, pc in enumerate(pools):
             self.pools.append(PoolRun(self, p, pc))
@@ -116,6 +117,14 @@ class World:
                 self.skipped += 1
                 pr = self.pools[cmd["op"].get("p", 0)]
                 pr.ev("skip", what="in:" + cmd.get("pt", "?"))
+            elif c == "newpool":
+                # a pool created while others exist / after another one was closed (C11: names stay distinct)
+                pr = PoolRun(self, len(self.pools), cmd["cfg"])
+                self.pools.append(pr)
+                sp = pr.splan if pr.simple else PLAN_DEFAULT
+                pr.ev("init", cls=pr.cfg["cls"], cfgsize=pr.cfg.get("size", -1), ps=str(pr.pool),
+                      allps=[str(q.pool) for q in self.pools], sexp=pr.simple_exp if pr.simple else "",
+                      secb=sp["ecb"], sccb=sp["ccb"], sbad=sorted(sp.get("bad", [])))
             elif c == "arm":
                 # arm an operation at a user-code point: "ecb:3" (exact) or "ecb:*" (next point of that kind)
                 self.armed.append([cmd["pt"], cmd["op"], cmd.get("times", 1)])
@@ -295,6 +304,8 @@ class PoolRun:
         if not self.w.recording:
             return None
         rec = {"e": _e}
+        if self.w.multi:
+            rec["p"] = self.p
         rec.update(f)
         rec.pop("G", None)
         G = self.groups_obs()       # group membership as reported by get_group_ids, whenever it changed
